@@ -39,6 +39,8 @@ type Prog struct {
 	CHAExtra int // callees added by the CHA cross-check (thorough)
 
 	edgeCache map[*ssa.Function][]*ssa.Function
+	sites     map[*ssa.Function][]ssa.CallInstruction
+	addrTaken map[*ssa.Function]bool
 }
 
 // Load loads ./... of repoDir. It fails on any type error in a repo package
@@ -352,4 +354,79 @@ func WithAnon(fn *ssa.Function) []*ssa.Function {
 		out = append(out, WithAnon(a)...)
 	}
 	return out
+}
+
+// StaticSites returns the static call sites (call, go, defer) of fn in non-test repo code.
+func (p *Prog) StaticSites(fn *ssa.Function) []ssa.CallInstruction {
+	if p.sites == nil {
+		p.sites = map[*ssa.Function][]ssa.CallInstruction{}
+		for _, f := range p.Repo {
+			AllInstrs(f, func(in ssa.Instruction) {
+				if c, ok := in.(ssa.CallInstruction); ok {
+					if cal := c.Common().StaticCallee(); cal != nil {
+						p.sites[cal] = append(p.sites[cal], c)
+					}
+				}
+			})
+		}
+	}
+	return p.sites[fn]
+}
+
+// Resolve canonicalises a value: spilled parameters become the parameter, and a parameter of a
+// helper that has exactly one static call site in the repository becomes the argument passed there
+// (so that extracting a block into a single-use helper does not change what rules see).
+func (p *Prog) Resolve(v ssa.Value) ssa.Value {
+	for i := 0; i < 4; i++ {
+		v = Unspill(v)
+		prm, ok := v.(*ssa.Parameter)
+		if !ok {
+			return v
+		}
+		fn := prm.Parent()
+		sites := p.StaticSites(fn)
+		if len(sites) != 1 || p.IsAddressTaken(fn) {
+			return v
+		}
+		idx := -1
+		for j, q := range fn.Params {
+			if q == prm {
+				idx = j
+			}
+		}
+		args := sites[0].Common().Args
+		if idx < 0 || idx >= len(args) {
+			return v
+		}
+		v = args[idx]
+	}
+	return v
+}
+
+// IsAddressTaken reports whether fn is used as a value somewhere in the repo (so that it may have callers we do not see).
+func (p *Prog) IsAddressTaken(fn *ssa.Function) bool {
+	if p.addrTaken == nil {
+		p.addrTaken = map[*ssa.Function]bool{}
+		for _, f := range p.Repo {
+			AllInstrs(f, func(in ssa.Instruction) {
+				var ops []*ssa.Value
+				for _, op := range in.Operands(ops) {
+					if op == nil || *op == nil {
+						continue
+					}
+					if g, ok := (*op).(*ssa.Function); ok {
+						if c, isCall := in.(ssa.CallInstruction); isCall && c.Common().Value == ssa.Value(g) {
+							continue
+						}
+						p.addrTaken[g] = true
+					}
+				}
+			})
+		}
+	}
+	if fn.Object() != nil && fn.Object().Exported() && fn.Signature.Recv() != nil {
+		// exported methods may be reached through interfaces / reflection
+		return true
+	}
+	return p.addrTaken[fn]
 }
